@@ -101,8 +101,10 @@ class Trait(object):
         if num:
             raise exception.TraitInUse(name=name)
 
+        # Remove the record whose associations were just counted: the name
+        # may meanwhile belong to a re-created trait with another id.
         res = context.session.query(models.Trait).filter_by(
-            name=name).delete()
+            id=_id, name=name).delete()
         if not res:
             raise exception.TraitNotFound(name=name)
 
